@@ -193,7 +193,19 @@ def hover (lns : List Txt) (j : Journal) (c : Cur) : Option (Hit × LRange) :=
 /-- `nameRange` (references.go): the range of a symbol's lexeme given where it starts. -/
 def nameRange (start : Pos) (name : Bytes) : Rng := ⟨start, ⟨start.line, start.col + runeLenB name, 0⟩⟩
 def accountNameRange (a : Account) : Rng := nameRange a.range.start a.name
-def directiveCommodityRange (c : Commodity) : Rng := nameRange c.range.start c.symbol
+/-- `directiveCommodityRange` (repo_patches/fix-quoted-commodity-directive.diff): the range the
+    parser recorded for the commodity of a `commodity` / `P` directive when it has an End — the
+    token's extent, which includes the quotes of a quoted symbol, as for a commodity written in
+    a posting — otherwise derived from the symbol. -/
+def directiveCommodityRange (c : Commodity) : Rng :=
+  if c.range.stop != Pos.zero then c.range else nameRange c.range.start c.symbol
+/-- As pinned (b9a9245 … before that repair): always derived from the symbol, two short when the
+    lexeme is written in quotes. -/
+def directiveCommodityRangePinned (c : Commodity) : Rng := nameRange c.range.start c.symbol
+/-- The located commodity of a directive: `derived` says whether the range was computed from
+    the symbol (no End in the tree) or is the range stored in the tree. -/
+def directiveCommodityHit (name : Bytes) (c : Commodity) : Hit :=
+  ⟨.commodity, name, directiveCommodityRange c, c.range.stop == Pos.zero⟩
 
 /-- `postingCommodities`: amount, cost, assertion. -/
 def postingCommodities (p : Posting) : List Commodity :=
@@ -221,10 +233,10 @@ def defDirective (c : Cur) : Directive → Option Hit
     if positionInRange c (accountNameRange a) then some ⟨.account, a.name, accountNameRange a, true⟩ else none
   | .commodity cm _ _ _ _ =>
     if cm.symbol ≠ [] && positionInRange c (directiveCommodityRange cm) then
-      some ⟨.commodity, cm.symbol, directiveCommodityRange cm, true⟩ else none
+      some (directiveCommodityHit cm.symbol cm) else none
   | .price _ cm p _ =>
     if cm.symbol ≠ [] && positionInRange c (directiveCommodityRange cm) then
-      some ⟨.commodity, cm.symbol, directiveCommodityRange cm, true⟩
+      some (directiveCommodityHit cm.symbol cm)
     else commodityAt c p.commodity
   | _ => none
 
@@ -294,9 +306,9 @@ def definition (lns : List Txt) (j : Journal) (c : Cur) : List (Hit × LRange) :
 /-- The directive part of `findCommodityReferences`. -/
 def commodityRefDirective (sym : Bytes) (decl : Bool) : Directive → List Hit
   | .commodity cm _ _ _ _ =>
-    if decl && cm.symbol == sym then [⟨.commodity, sym, directiveCommodityRange cm, true⟩] else []
+    if decl && cm.symbol == sym then [directiveCommodityHit sym cm] else []
   | .price _ cm p _ =>
-    (if cm.symbol == sym then [(⟨.commodity, sym, directiveCommodityRange cm, true⟩ : Hit)] else []) ++
+    (if cm.symbol == sym then [directiveCommodityHit sym cm] else []) ++
     (if p.commodity.symbol == sym then [(⟨.commodity, sym, p.commodity.range, false⟩ : Hit)] else [])
   | _ => []
 
@@ -383,7 +395,7 @@ def payeeSymbols : List Bytes → List Transaction → List Hit
 def workspaceSymbolHits (j : Journal) : List Hit :=
   j.directives.filterMap (fun d => match d with
     | .account a _ _ _ _ => some ⟨.account, a.name, accountNameRange a, true⟩
-    | .commodity cm _ _ _ _ => some ⟨.commodity, cm.symbol, directiveCommodityRange cm, true⟩
+    | .commodity cm _ _ _ _ => some (directiveCommodityHit cm.symbol cm)
     | _ => none) ++
   payeeSymbols [] j.transactions
 
